@@ -427,6 +427,8 @@ def run_property(plan, tier, seed, t_start):
         return 2
 
     selected = select_budget(plan, tier, seed)
+    if os.environ.get("VERIF_ONLY"):   # development aid (never set by registered commands): decide only the harnesses matching this regex
+        selected = {h.name for h in plan.harnesses if re.search(os.environ["VERIF_ONLY"], h.name)}
     if selected is not None:
         plan.bounds = dict(plan.bounds or {})
         plan.bounds["thorough_budget"] = ("%d of the %d generated harnesses are decided in this run (even stride through the catalogue, rotated by "
